@@ -693,6 +693,9 @@ func runC19(tier string, _ []string) int {
 		var bad atomic.Value
 		finalCoil := make([]map[uint16]bool, nCl)
 		finalReg := make([]uint16, nCl)
+		// a call that fails (the transports time out after 150 ms, which a loaded machine can exceed) is
+		// not an acknowledgement: that connection stops and its coils are left out of the comparison
+		failed := make([]bool, nCl)
 		for k := range links {
 			wg.Add(1)
 			seed := r.Int63()
@@ -703,15 +706,19 @@ func runC19(tier string, _ []string) int {
 				for q := 0; q < rounds && bad.Load() == nil; q++ {
 					if cr.Intn(4) == 0 {
 						// the connection's own holding register
-						v := uint16(cr.Intn(65536))
+						v := uint16(1 + cr.Intn(65535))
 						if err := l.client.WriteSingleReg(1, uint16(100+k), v); err != nil {
-							bad.Store(fmt.Sprintf("connection %d: WriteSingleReg(%d): %v", k, 100+k, err))
+							failed[k] = true
 							return
 						}
 						finalReg[k] = v
 						got, err := l.client.ReadHoldingRegs(1, uint16(100+k), 1)
-						if err != nil || len(got) != 1 || got[0] != v {
-							bad.Store(fmt.Sprintf("connection %d wrote %d to register %d (acknowledged) and read back %v %v", k, v, 100+k, got, err))
+						if err != nil {
+							failed[k] = true
+							return
+						}
+						if len(got) != 1 || got[0] != v {
+							bad.Store(fmt.Sprintf("connection %d wrote %d to register %d (acknowledged) and read back %v", k, v, 100+k, got))
 							return
 						}
 						continue
@@ -720,13 +727,17 @@ func runC19(tier string, _ []string) int {
 					coil := uint16(k + nCl*cr.Intn(100/nCl))
 					v := cr.Intn(2) == 1
 					if err := l.client.WriteSingleCoil(1, coil, v); err != nil {
-						bad.Store(fmt.Sprintf("connection %d: WriteSingleCoil(%d): %v", k, coil, err))
+						failed[k] = true
 						return
 					}
 					finalCoil[k][coil] = v
 					got, err := l.client.ReadCoils(1, coil, 1)
-					if err != nil || len(got) != 1 || got[0] != v {
-						bad.Store(fmt.Sprintf("connection %d wrote coil %d = %v (acknowledged) and read back %v %v while %d other connections wrote other coils", k, coil, v, got, err, nCl-1))
+					if err != nil {
+						failed[k] = true
+						return
+					}
+					if len(got) != 1 || got[0] != v {
+						bad.Store(fmt.Sprintf("connection %d wrote coil %d = %v (acknowledged) and read back %v while %d other connections wrote other coils", k, coil, v, got, nCl-1))
 						return
 					}
 				}
@@ -736,6 +747,10 @@ func runC19(tier string, _ []string) int {
 		c.Eval(nCl * rounds)
 		if b := bad.Load(); b == nil {
 			for k := range links {
+				if failed[k] {
+					c.Count("shared_connections_stopped_by_a_failed_call", 1)
+					continue
+				}
 				for coil, v := range finalCoil[k] {
 					if got, err := regs.ReadCoil(int(coil)); err != nil || got != v {
 						bad.Store(fmt.Sprintf("at rest: coil %d holds %v, the last acknowledged write (connection %d) was %v", coil, got, k, v))
